@@ -64,9 +64,11 @@ func (g *rgen) scalarField(name string, num int, allowOneofShapes bool) absd.Fld
 			f.Nullable = true
 		}
 	case 1:
-		if f.Std == "" { // maps of std time are rare in practice; keep maps to scalars, enums and casts
-			f.Card, f.MapKey = "map", "string"
-			f.Cast = ""
+		// maps: scalars, enums, and std time / duration (the option sits on the map field, not on the entry's value)
+		f.Card, f.MapKey = "map", "string"
+		f.Cast = ""
+		if f.Std != "" {
+			f.Nullable = true
 		}
 	}
 	return f
